@@ -36,11 +36,14 @@ var (
 	fDead    = flag.Int64("deadline", 0, "unix seconds at which exploration stops")
 	fRoot    = flag.String("root", "/verif", "verif root")
 	fInstrOK = flag.Bool("instr-ok", true, "instrumented build available")
+	fRace    = flag.Bool("racepass", false, "run the free-running race-detector pass of C18 (race-enabled build)")
 )
 
 func main() {
 	flag.Parse()
 	switch {
+	case *fRace:
+		props.RunRacePass()
 	case *fWorker:
 		worker()
 	case *fReplay != "":
